@@ -7,9 +7,40 @@ from harness import vscen
 from vlib import core
 
 
-def run_scenarios(ctx, opt_sets, n, families=("ed25519",), use_gpg=False, post=None, times=1):
+class Tables:
+    """the signature table of an already built scenario (sweeps re-use the base scenario's)"""
+
+    def __init__(self, rows, msgs):
+        self.rows, self.msgs = rows, msgs
+
+
+def run_one(scen, env, wd, opts=None, times=1):
+    """implementation run(s) of one scenario and the model request that goes with it.  A scenario carrying
+    "params_seq" is a sequence of verifications of ONE loaded object."""
+    outs, exec_table = vscen.run_impl(scen, wd, times=times, params_seq=scen.get("params_seq"),
+                                      scrub=bool(scen.get("scrub")))
+    req = vscen.model_request(scen, env, exec_table, int(time.time()), outs)
+    return {"scen": scen, "impl": outs, "req": req, "opts": opts or {}}
+
+
+def run_model(recs):
+    """the model on every record; fills model_raw / model / diff"""
+    model = core.Model()
+    ans = model.batch([("verify", r["req"]) for r in recs])
+    for r, a in zip(recs, ans):
+        r["model_raw"] = a
+        if isinstance(a, dict) and "seq" in a:
+            r["model"] = [vscen.norm_model_outcome(x) for x in a["seq"]]
+        else:
+            r["model"] = vscen.norm_model_outcome(a) if isinstance(a, dict) else {"err": "driver"}
+        r["diff"] = vscen.compare_all(r["impl"], a)
+    return model
+
+
+def run_scenarios(ctx, opt_sets, n, families=("ed25519",), use_gpg=False, post=None, times=1, each=None, model=True):
     """build n scenarios (cycling through opt_sets), run implementation and model.
-    Returns dict with per-scenario records."""
+    Returns (per-scenario records, model).  [each(rec, env, wd)] is called after the implementation run of
+    every scenario (extra runs that need the scenario's signing environment) and may return further records."""
     env = vscen.Env(ctx.rng, ctx.work, families=families, use_gpg=use_gpg)
     recs = []
     try:
@@ -21,18 +52,28 @@ def run_scenarios(ctx, opt_sets, n, families=("ed25519",), use_gpg=False, post=N
             scen = vscen.build(ctx.rng, env, opts, wd)
             if post:
                 post(ctx.rng, scen, env)
-            outs, exec_table = vscen.run_impl(scen, wd, times=times)
-            req = vscen.model_request(scen, env, exec_table, int(time.time()))
-            recs.append({"scen": scen, "impl": outs, "req": req, "opts": opts})
+            rec = run_one(scen, env, wd, opts, times=times)
+            recs.append(rec)
+            if each:
+                recs.extend(each(rec, env, wd) or [])
     finally:
         env.close()
-    model = core.Model()
-    ans = model.batch([("verify", r["req"]) for r in recs])
-    for r, a in zip(recs, ans):
-        r["model_raw"] = a
-        r["model"] = vscen.norm_model_outcome(a) if isinstance(a, dict) else {"err": "driver"}
-        r["diff"] = vscen.compare(r["impl"][0], r["model"])
-    return recs, model
+    return recs, (run_model(recs) if model else None)
+
+
+class _Sample:
+    pass
+
+
+def kernel_sample(ctx, model, per_case=25000, limit_chars=60000, max_cases=6):
+    """core.kernel_sample restricted to cases whose request and answer are each at most [per_case] characters:
+    coqc overflows its stack on a single list literal of more than ~35 000 elements"""
+    sm = _Sample()
+    keep = [i for i in range(len(model.lines)) if model.raw[i] is not None
+            and len(model.lines[i]) <= per_case and len(model.raw[i]) <= per_case]
+    sm.lines = [model.lines[i] for i in keep]
+    sm.raw = [model.raw[i] for i in keep]
+    return core.kernel_sample(ctx, sm, limit_chars=limit_chars, max_cases=max_cases)
 
 
 def stats(recs):
@@ -49,9 +90,30 @@ def stats(recs):
             "accept_share": round(outcomes.get("accept", 0) / max(1, len(recs)), 3)}
 
 
-def replay_file(rec):
+def distinct_inputs(recs, relevant=None):
+    """measured: number of different inputs (root file, link directory, keys, parameters, clock) among the records
+    that are relevant to the property"""
+    import hashlib
+    seen = set()
+    for r in recs:
+        if relevant and not relevant(r):
+            continue
+        q = r["req"]
+        txt = json.dumps([q.get("root"), q.get("dir"), q.get("keys"), q.get("params"), q.get("params_seq"), q.get("now_us")],
+                         sort_keys=True, default=repr)
+        seen.add(hashlib.sha1(txt.encode()).hexdigest())
+    return len(seen)
+
+
+def replay_file(rec, **extra):
     r = dict(rec["req"])
-    return {"request": r, "impl": rec["impl"], "model": rec["model_raw"], "tags": rec["scen"]["tags"], "diff": rec["diff"]}
+    out = {"request": r, "impl": rec["impl"], "model": rec["model_raw"], "tags": rec["scen"]["tags"], "diff": rec["diff"],
+           "layouts": rec["scen"].get("layouts")}
+    for k in ("sweep", "oracle"):
+        if k in rec:
+            out[k] = rec[k]
+    out.update(extra)
+    return out
 
 
 def slim(scen):
@@ -64,7 +126,7 @@ def slim(scen):
 def report(ctx, pid, recs, model, props, what, relevant=None, extra_cov=None, assumptions=None,
            known_match=None):
     """common tail of the core properties: kernel sample, violations, evidence"""
-    kn, kok, kdetail = core.kernel_sample(ctx, model, limit_chars=60000, max_cases=6)
+    kn, kok, kdetail = kernel_sample(ctx, model)
     ctx.oblige("kernel-vs-extraction-sample", kok, kdetail)
     diffs = [r for r in recs if r["diff"] and r["diff"] != "unmodelled"]
     known = core.load_known(pid)
@@ -107,23 +169,31 @@ def report(ctx, pid, recs, model, props, what, relevant=None, extra_cov=None, as
     return core.finish(ctx, "proof", cov, assumptions or [])
 
 
-def replay(ctx, pid, obj, outs=None):
-    """re-execute a stored scenario against /repo's current code and the model
-    (outs: optional list receiving the implementation's outcome)"""
+def show(o):
+    d = {k: v for k, v in o.items() if k not in ("ok", "exec", "after")}
+    return "%s%s" % ("accept " if "ok" in o else "", d)
+
+
+def replay(ctx, pid, obj, oracle=None, outs=None):
+    """re-execute a stored scenario (one verification, or a sequence over one loaded object) against
+    /repo's current code and the model.  [oracle(r, scen, outs, wd)] -> description of a property violation
+    on the implementation's own observables, or None.  [outs]: optional list receiving the implementation's
+    outcome of the first run."""
     outs_sink = outs
-    import time as _t
     r = obj["replay"]
     req = r["request"]
     wd = os.path.join(ctx.work, "sc")
     os.makedirs(wd, exist_ok=True)
     scen = {"root": req["root"], "dir": req["dir"], "keys": req["keys"], "params": req["params"],
-            "now_us": req["now_us"], "tags": r.get("tags", []), "logpath": os.path.join(wd, "insp.log")}
-    # inspection commands mention the log path of the original run, and they are part of the SIGNED layouts:
-    # the path cannot be rewritten (the real signatures would break); re-create the original directory instead
+            "now_us": req["now_us"], "tags": r.get("tags", []), "logpath": os.path.join(wd, "insp.log"),
+            "layouts": r.get("layouts") or {}, "params_seq": req.get("params_seq"), "scrub": req.get("scrub", False)}
+    # current scenarios name the log relative to the working directory.  Older replay files carry an absolute path
+    # inside the SIGNED commands: it cannot be rewritten (the real signatures would break); the original directory
+    # is re-created instead
     import re as _re
     import shutil as _sh
     made = None
-    m = _re.search(r">> (\S+insp\.log)", json.dumps(req))
+    m = _re.search(r">> (/\S+insp\.log)", json.dumps(req))
     if m:
         old_log = m.group(1)
         scen["logpath"] = old_log
@@ -135,22 +205,54 @@ def replay(ctx, pid, obj, outs=None):
             os.makedirs(d)
             made = top
     try:
-        outs, exec_table = vscen.run_impl(scen, wd)
+        outs, exec_table = vscen.run_impl(scen, wd, params_seq=scen["params_seq"], scrub=bool(scen["scrub"]))
+        req["exec"] = exec_table
+        if scen["params_seq"] is not None:
+            req["exec_seq"] = [o.get("exec", []) for o in outs]
+        model = core.Model()
+        a = model.batch([("verify", req)])[0]
+        d = vscen.compare_all(outs, a)
+        if outs_sink is not None:
+            outs_sink.append(outs[0])
+        mos = a["seq"] if isinstance(a, dict) and "seq" in a else [a]
+        for k, o in enumerate(outs):
+            print("impl  run %d:" % k, show(o), "" if not o.get("changed") else "(caller's object changed)")
+        for k, mo in enumerate(mos):
+            print("model run %d:" % k, show(vscen.norm_model_outcome(mo)) if isinstance(mo, dict) else mo)
+        bad = False
+        if d and d != "unmodelled":
+            print("  -> model and implementation disagree: " + d)
+            bad = True
+        if oracle:
+            od = oracle(r, scen, outs, wd)
+            if od:
+                print("  -> property oracle: " + od)
+                bad = True
     finally:
         if made and os.path.realpath(made).startswith(os.path.realpath(core.ROOT) + os.sep):
             _sh.rmtree(made, ignore_errors=True)
-    req["exec"] = exec_table
-    model = core.Model()
-    a = model.batch([("verify", req)])[0]
-    mo = vscen.norm_model_outcome(a) if isinstance(a, dict) else {"err": "driver"}
-    d = vscen.compare(outs[0], mo)
-    if outs_sink is not None:
-        outs_sink.append(outs[0])
-    print("impl :", {k: v for k, v in outs[0].items() if k != "ok"} or "accept", "" if "ok" not in outs[0] else "(accept)")
-    print("model:", {k: v for k, v in mo.items() if k != "ok"}, "" if "ok" not in mo else "(accept)")
-    if d and d != "unmodelled":
-        print("  -> " + d)
+    if bad:
         print("VIOLATION property=%s replay=%s" % (pid, obj.get("rerun", "").split()[-1]))
         return 1
     print("agree")
+    return 0
+
+
+def replay_obligations(ctx, pid, obj, props, ties):
+    """replay of a violation without failing input: re-establish the obligations (statement files and the
+    syntactic ties) on the current tree"""
+    import os as _os
+    from harness import vskel
+    for rel in props:
+        if _os.path.exists(_os.path.join(core.COQ, rel)):
+            core.check_props(ctx, [rel])
+    vskel.check(ctx, ties)
+    broken = ctx.broken_obligations()
+    print("stored: " + str(obj.get("what"))[:400])
+    if broken:
+        for n, d in broken:
+            print("still broken: %s%s" % (n, (" -- " + d[:300]) if d else ""))
+        print("VIOLATION property=%s replay=%s no-failing-input-found" % (pid, obj.get("rerun", "").split()[-1]))
+        return 1
+    print("agree (all %d obligations hold on this tree)" % len(ctx.obligations))
     return 0
